@@ -7,7 +7,7 @@ package forwarder
 //
 //vf:assume C12-map: errors are drawn from a constructor pool (net.OpError timeout/non-timeout for dial/read/write, tls.RecordHeaderError with 5 symbolic header bytes, tls.CertificateVerificationError, tls.AlertError from {40,42,80,255}, martian.ErrorStatus with a status from {400,404,418,499,502,599}, the proxy's own authentication/deny/prohibited errors, context.Canceled, an unclassified error), each bare, wrapped by fmt.Errorf("%w") or by *url.Error; request scheme http/https
 //vf:assume C12-hostile: the client sends one of 6 prefixes (nothing, partial request lines, a TLS record start, a request with a dangling Content-Length) followed by 4 (quick) / 8 (thorough) arbitrary ASCII bytes and closes; non-ASCII junk and longer streams are outside
-//vf:assume C12-pipe: faults are injected at the next hop of the real connection loop: round-trip error (from the pool), dial failure of a CONNECT, write failure on the client socket after k bytes; truncation of a real upstream reply inside net/http's Transport is outside
+//vf:assume C12-pipe: faults are injected at the next hop of the real connection loop: round-trip error (from the pool), dial failure of a CONNECT, write failure on the client socket after k bytes, origin body failing after 0/2/4 of 6 announced bytes with a timeout / non-timeout / EOF / decoding error; truncation of a real upstream reply inside net/http's Transport is outside
 
 import (
 	"bufio"
@@ -27,6 +27,22 @@ import (
 )
 
 //vf:override (*github.com/saucelabs/forwarder.httpProxyMetrics).error = vfStubMetricsError
+
+type vfFailingBody struct {
+	data []byte
+	pos  int
+	err  error
+}
+
+func (b *vfFailingBody) Read(p []byte) (int, error) {
+	if b.pos >= len(b.data) {
+		return 0, b.err
+	}
+	n := copy(p, b.data[b.pos:])
+	b.pos += n
+	return n, nil
+}
+func (b *vfFailingBody) Close() error { return nil }
 
 type vfNetErr struct{ timeout bool }
 
@@ -120,7 +136,7 @@ func vfH_C12_map() {
 	vfrt.Assert(res.ContentLength == int64(len(body)) && len(body) > 0, "map/content-length-equals-body")
 }
 
-//vf:harness property=C12 nopanic reach=pipe-roundtrip-fault,pipe-connect-fault,pipe-write-fault steps=8000000
+//vf:harness property=C12 nopanic reach=pipe-roundtrip-fault,pipe-connect-fault,pipe-write-fault,pipe-body-fault steps=8000000
 func vfH_C12_pipe() {
 	cfg := HTTPProxyConfig{}
 	cfg.Name = "fw"
@@ -128,7 +144,7 @@ func vfH_C12_pipe() {
 	hp := vfNewHTTPProxy(cfg)
 	rt := hp.transport.(*vfRoundTripper)
 	vfDials = 0
-	kind := vfrt.Choice("fault-point", 3)
+	kind := vfrt.Choice("fault-point", 4)
 	var ferr error
 	var want int
 	wire := "GET http://example.com/a HTTP/1.1\r\nHost: example.com\r\n\r\nGET http://example.com/b HTTP/1.1\r\nHost: example.com\r\n\r\n"
@@ -150,12 +166,37 @@ func vfH_C12_pipe() {
 	case 2:
 		vfrt.Reach("pipe-write-fault")
 		conn.WriteErrAfter = 1 + vfrt.Choice("write-fails-after", 3)*20
+	case 3:
+		// the origin fails in the middle of its reply body (after the head was relayed): k of 6 announced bytes, then an error
+		vfrt.Reach("pipe-body-fault")
+		k := vfrt.Choice("body-bytes-before-fault", 3) * 2
+		berr := []error{&net.OpError{Op: "read", Net: "tcp", Err: vfNetErr{true}}, &net.OpError{Op: "read", Net: "tcp", Err: vfNetErr{false}}, io.ErrUnexpectedEOF, errors.New("malformed chunked encoding")}[vfrt.Choice("body-error", 4)]
+		rt.respond = func(req *http.Request, n int) (*http.Response, error) {
+			if n == 1 {
+				return &http.Response{StatusCode: 200, ProtoMajor: 1, ProtoMinor: 1, Header: http.Header{}, Body: &vfFailingBody{data: []byte("ABCDEF")[:k], err: berr}, ContentLength: 6, Request: req}, nil
+			}
+			return &http.Response{StatusCode: 200, ProtoMajor: 1, ProtoMinor: 1, Header: http.Header{}, Body: io.NopCloser(bytes.NewReader([]byte("second"))), ContentLength: 6, Request: req}, nil
+		}
 	}
 	conn.In = []byte(wire)
 	martian.VfServeConn(hp.proxy, conn)
 
 	vfrt.Assert(conn.Closed >= 1, "pipe/connection-closed-at-the-end")
 	out := conn.Out.Bytes()
+	if kind == 3 {
+		// the failure happened after the response head was sent: the client must see a closed connection, never a
+		// response that parses as complete but is truncated or mixed with the next one
+		br := bufio.NewReader(bytes.NewReader(out))
+		res, perr := http.ReadResponse(br, &http.Request{Method: "GET"})
+		vfrt.Assert(perr == nil && res.StatusCode == 200, "pipe/head-was-relayed")
+		if perr != nil {
+			return
+		}
+		_, berr := io.ReadAll(res.Body)
+		vfrt.Assert(berr != nil, "pipe/truncated-body-does-not-parse-as-complete")
+		vfrt.Assert(rt.calls == 1, "pipe/connection-not-reused-after-mid-body-failure")
+		return
+	}
 	if kind == 2 {
 		// the client socket failed: nothing more may be attempted for this connection, and only one request was forwarded
 		vfrt.Assert(rt.calls == 1, "pipe/no-further-requests-after-write-failure")
